@@ -297,6 +297,8 @@ class QueueWorld(object):
             led['delivered'].append(rcpt)
         else:
             led['failed'][rcpt] = reply
+            # failure event = (how, ordinal of the attempt of this message that produced it)
+            led.setdefault('fail_event', {})[rcpt] = (how, led['attempts'])
 
     def _apply_outcome(self, o, rcpts, led):
         def temp(i=''):
